@@ -12,7 +12,7 @@ MANIFEST = dict(
          'size() elements, the i-th being get(i), backwards the reverse; empty() iff size() = 0; *end() and *--begin() are refused. On the '
          'model of accessor outcomes, for every history of link assignments on a partially built node: reading a never-set util::ref / '
          'Optional link is refused, reading a set link returns the node LAST assigned, Optional-returning accessors never raise, an '
-         'accessor depends only on the link it reads. WHICH accessor needs which link is a hand-written table over 224 node kinds (hygiene '
+         'accessor depends only on the link it reads. WHICH accessor needs which link is a hand-written table over 225 node kinds (hygiene '
          'by kernel evaluation, lifted to every kind x row x history), tied to the code by an exhaustive sweep under ASan+UBSan '
          '(-fno-sanitize-recover): every kind the factories produce x every state of its optional links x every accessor (universal '
          'observer), each in a forked child, plus random assignment histories and every Sequence implementation over all small slot '
